@@ -261,7 +261,7 @@ class TypeObject:
         if self.is_protocol:
             return (
                 f"{base} (Protocol with members"
-                f" {', '.join(map(repr, self.protocol_members))})"
+                f" {', '.join(map(repr, sorted(self.protocol_members)))})"
             )
         return base
 
